@@ -5,7 +5,7 @@ import z3
 
 from problog.errors import GroundingError, ProbLogError
 
-from vlib import gen, refsem, semcheck, symsem, pipeline
+from vlib import gen, refsem, semcheck, symsem, pipeline, engine_events
 from vlib.common import Run, Stats, pmap, short_hash
 from vlib.semcheck import call_site
 
@@ -112,7 +112,12 @@ def work(item):
                          {"kind": "c02", "ast": prog, "program": text, "class": cls})
         else:
             st.ob("refuted", key=okey)
-            st.violation("answered:%s" % pkey,
+            # a known engine defect is identified by its call site (observed, not patched): the
+            # negated goal's node is taken from the cache while the goal is still active on a cycle
+            with engine_events.observe() as events:
+                run_concrete(text)
+                site = sorted(set(events))
+            st.violation("answered:%s" % (site[0] if site else pkey),
                          "query/evidence atom %s has no two-valued truth value in world %s but inference returned %s" % (
                              wit[0], wit[1], res),
                          {"kind": "c02", "ast": prog, "program": text, "class": cls})
